@@ -12,7 +12,9 @@ OPT = ["Oa", "Ob", "Oc", "Od"]          # optional trait names (already in name 
 MOPT = ["Pa", "Pb"]                      # optional traits that also have &mut self methods (no Ref container)
 CODE = {"Gm": 1, "Oa": 2, "Ob": 3, "Oc": 4, "Od": 5, "TtUsize": 6, "TtU64": 7, "Hm": 1, "Pa": 8, "Pb": 9}
 MUTABLE = {"Hm", "Pa", "Pb"}
-CODE.update({"Ma": 10, "Mb": 11})
+CODE.update({"Ma": 10, "Mb": 11, "TLB": 12, "Tag": 13, "KVStore": 14, "KeyDumper": 15})
+# names whose byte-wise order differs from the order of their lower-cased forms ("name order" = order of the identifiers)
+CASED = ["TLB", "Tag", "KVStore", "KeyDumper"]
 
 
 def subsets(xs):
@@ -31,7 +33,7 @@ def trait_defs():
         out.append("#[cglue_trait]\npub trait %s {\n    fn %s(&self) -> u64;\n}" % (t, meth(t)))
     for t in ["Hm"] + MOPT:
         out.append("#[cglue_trait]\npub trait %s {\n    fn %s(&self) -> u64;\n    fn %s_mut(&mut self, add: u64) -> u64;\n}" % (t, meth(t), meth(t)))
-    for t in ["Ma", "Mb"]:
+    for t in ["Ma", "Mb"] + CASED:
         out.append("#[cglue_trait]\npub trait %s {\n    fn %s(&self) -> u64;\n}" % (t, meth(t)))
     out.append("#[cglue_trait]\npub trait Tt<T> {\n    fn tt(&self, v: T) -> u64;\n}")
     return "\n".join(out)
@@ -47,7 +49,7 @@ def imp_type(name):
     for t in ["Hm"] + MOPT:
         out.append("impl %s for %s { fn %s(&self) -> u64 { self.id * 1000 + %d + self.acc } fn %s_mut(&mut self, add: u64) -> u64 { self.acc += add * %d; self.id * 1000 + %d + self.acc } }" % (
             t, name, meth(t), CODE[t], meth(t), CODE[t], CODE[t]))
-    for t in ["Ma", "Mb"]:
+    for t in ["Ma", "Mb"] + CASED:
         out.append("impl %s for %s { fn %s(&self) -> u64 { self.id * 1000 + %d + self.acc } }" % (t, name, meth(t), CODE[t]))
     out.append("impl Tt<usize> for %s { fn tt(&self, v: usize) -> u64 { self.id * 1000 + 6 + v as u64 } }" % name)
     out.append("impl Tt<u64> for %s { fn tt(&self, v: u64) -> u64 { self.id * 1000 + 7 + v } }" % name)
@@ -322,6 +324,8 @@ def main():
     add(family_crate(out_dir, "hg_gmut", "Gmut", ["Hm"], MOPT, containers=("Box", "Mut")))
     # mandatory and optional traits declared out of name order
     add(family_crate(out_dir, "hg_gord", "Gord", ["Mb", "Ma"], ["Ob", "Oa"]))
+    # trait names whose case-sensitive order differs from the case-folded one
+    add(family_crate(out_dir, "hg_gcase", "Gcase", ["Gm"], ["Tag", "TLB", "KeyDumper", "KVStore"][:3]))
     print("generated %d cast cells, %d layout cells" % tuple(tot))
 
 
